@@ -1,2 +1,442 @@
-/- helper lemmas (stub) -/
+/- helper lemmas for C09: extract / inline move content around without losing or duplicating it.
+Everything is proved once for a generic pre-order "measure" `meas f` (a list collected from the
+node payloads); `Content.ofTree`, `Content.refKeys` and `Tree.ids` are instances. -/
 import IweModel.Lemmas.TreeBasic
+
+namespace Iwe
+namespace Tree
+
+/-! ### generic pre-order measure -/
+
+mutual
+def meas {α : Type} (f : Option Nat → Node → List α) : Tree → List α
+  | .mk id n cs => f id n ++ measL f cs
+def measL {α : Type} (f : Option Nat → Node → List α) : List Tree → List α
+  | [] => []
+  | t :: ts => meas f t ++ measL f ts
+end
+
+/-- close a `List.Perm` goal between append-combinations of atoms, given up to two `Perm` facts,
+by counting occurrences -/
+syntax "perm_count" (term)? (term)? : tactic
+macro_rules
+  | `(tactic| perm_count) => `(tactic| (
+      classical
+      rw [List.perm_iff_count]; intro a
+      simp only [Tree.meas, Tree.measL, List.count_append, List.count_nil, List.append_nil] at *
+      omega))
+  | `(tactic| perm_count $h1) => `(tactic| (
+      classical
+      rw [List.perm_iff_count]; intro a
+      have c1 := List.Perm.count_eq $h1 a
+      simp only [Tree.meas, Tree.measL, List.count_append, List.count_nil, List.append_nil] at *
+      omega))
+  | `(tactic| perm_count $h1 $h2) => `(tactic| (
+      classical
+      rw [List.perm_iff_count]; intro a
+      have c1 := List.Perm.count_eq $h1 a
+      have c2 := List.Perm.count_eq $h2 a
+      simp only [Tree.meas, Tree.measL, List.count_append, List.count_nil, List.append_nil] at *
+      omega))
+
+section
+variable {α : Type} (f : Option Nat → Node → List α)
+
+theorem measL_append (a b : List Tree) : measL f (a ++ b) = measL f a ++ measL f b := by
+  induction a with
+  | nil => simp [measL]
+  | cons x xs ih => simp [measL, ih]
+
+theorem meas_leaf (t : Tree) (h : t.children = []) : meas f t = f t.id t.node := by
+  obtain ⟨id, n, cs⟩ := t
+  simp only [children_mk] at h
+  subst h
+  simp [meas, measL]
+
+theorem measL_insertAt (xs : List Tree) (n : Nat) (x : Tree) :
+    (measL f (insertAt xs n x)).Perm (meas f x ++ measL f xs) := by
+  have hx : measL f xs = measL f (xs.take n) ++ measL f (xs.drop n) := by
+    rw [← measL_append, List.take_append_drop]
+  rw [hx]
+  simp only [insertAt, measL_append]
+  perm_count
+
+mutual
+/-- the measure of a subtree found by `find` is part of the measure of the tree -/
+theorem meas_find_subset (i : Nat) (r : Tree) : (t : Tree) → find i t = some r →
+    ∀ x ∈ meas f r, x ∈ meas f t
+  | .mk id n cs, h, x, hx => by
+    by_cases hid : id = some i
+    · simp [find, hid] at h; subst h; exact hx
+    · simp [find, hid] at h
+      simp only [meas, List.mem_append]
+      exact .inr (measL_findL_subset i r cs h x hx)
+theorem measL_findL_subset (i : Nat) (r : Tree) : (cs : List Tree) → findL i cs = some r →
+    ∀ x ∈ meas f r, x ∈ measL f cs
+  | [], h, _, _ => by simp [findL] at h
+  | t :: ts, h, x, hx => by
+    simp only [findL] at h
+    simp only [measL, List.mem_append]
+    cases hf : find i t with
+    | some r' =>
+      rw [hf] at h; simp at h; subst h
+      exact .inl (meas_find_subset i r' t hf x hx)
+    | none =>
+      rw [hf] at h
+      exact .inr (measL_findL_subset i r ts h x hx)
+end
+
+end
+
+/-! ### instances of the measure -/
+
+def contentF : Option Nat → Node → List Node := fun _ n => if Content.isContainerOnly n then [] else [n]
+def idsF : Option Nat → Node → List Nat := fun id _ => match id with | some i => [i] | none => []
+def refKeysF : Option Nat → Node → List String := fun _ n => match n with | .ref k _ _ => [k] | _ => []
+
+mutual
+theorem ofTree_eq_meas : (t : Tree) → Content.ofTree t = meas contentF t
+  | .mk id n cs => by simp [Content.ofTree, meas, contentF, ofForest_eq_measL cs]
+theorem ofForest_eq_measL : (cs : List Tree) → Content.ofForest cs = measL contentF cs
+  | [] => by simp [Content.ofForest, measL]
+  | t :: ts => by simp [Content.ofForest, measL, ofTree_eq_meas t, ofForest_eq_measL ts]
+end
+
+mutual
+theorem ids_eq_meas : (t : Tree) → ids t = meas idsF t
+  | .mk id n cs => by simp [ids, meas, idsF, idsL_eq_measL cs]
+theorem idsL_eq_measL : (cs : List Tree) → idsL cs = measL idsF cs
+  | [] => by simp [idsL, measL]
+  | t :: ts => by simp [idsL, measL, ids_eq_meas t, idsL_eq_measL ts]
+end
+
+mutual
+theorem refKeys_eq_meas : (t : Tree) → Content.refKeys t = meas refKeysF t
+  | .mk id n cs => by simp [Content.refKeys, meas, refKeysF, refKeysL_eq_measL cs]
+theorem refKeysL_eq_measL : (cs : List Tree) → Content.refKeysL cs = measL refKeysF cs
+  | [] => by simp [Content.refKeysL, measL]
+  | t :: ts => by simp [Content.refKeysL, measL, refKeys_eq_meas t, refKeysL_eq_measL ts]
+end
+
+/-! ### direct children with a given id -/
+
+theorem idEq_mem_idsL {e : Nat} : {cs : List Tree} → {c : Tree} → c ∈ cs → c.idEq e = true → e ∈ idsL cs
+  | [], _, h, _ => by simp at h
+  | t :: ts, c, h, hc => by
+    simp only [idsL, List.mem_append]
+    rcases List.mem_cons.mp h with h | h
+    · subst h
+      obtain ⟨id, n, cs⟩ := c
+      simp only [idEq_mk, beq_iff_eq] at hc
+      exact .inl (by simp [ids, hc])
+    · exact .inr (idEq_mem_idsL h hc)
+
+theorem filter_idEq_of_not_mem {e : Nat} {cs : List Tree} (h : e ∉ idsL cs) :
+    cs.filter (fun c => !c.idEq e) = cs := by
+  rw [List.filter_eq_self]
+  intro c hc
+  cases hce : c.idEq e with
+  | false => rfl
+  | true => exact absurd (idEq_mem_idsL hc hce) h
+
+theorem find_self_of_idEq {e : Nat} {c : Tree} (h : c.idEq e = true) : find e c = some c := by
+  obtain ⟨id, n, cs⟩ := c
+  simp only [idEq_mk] at h
+  simp [find, h]
+
+/-! ### `extractRec` -/
+
+open Actions
+
+mutual
+theorem extractRec_frame (e p : Nat) (k : String) : (t : Tree) → contains p t = false → extractRec e p k t = t
+  | .mk id n cs, h => by
+    simp only [contains, Bool.or_eq_false_iff] at h
+    simp [extractRec, h.1, extractRecL_frame e p k cs h.2]
+theorem extractRecL_frame (e p : Nat) (k : String) : (cs : List Tree) → containsL p cs = false →
+    extractRecL e p k cs = cs
+  | [], _ => by simp [extractRecL]
+  | t :: ts, h => by
+    simp only [containsL, Bool.or_eq_false_iff] at h
+    simp [extractRecL, extractRec_frame e p k t h.1, extractRecL_frame e p k ts h.2]
+end
+
+section
+variable {α : Type} (f : Option Nat → Node → List α)
+
+/-- with unique ids, dropping the direct children with id `e` drops exactly the subtree that
+`findL e` returns -/
+theorem measL_filter_extract (e : Nat) (sub : Tree) : (cs : List Tree) → (idsL cs).Nodup →
+    anyIdEq e cs = true → findL e cs = some sub →
+    (measL f (cs.filter fun c => !c.idEq e) ++ meas f sub).Perm (measL f cs)
+  | [], _, h, _ => by simp [anyIdEq] at h
+  | c :: rest, hn, ha, hf => by
+    simp only [idsL] at hn
+    obtain ⟨hn1, hn2, hdis⟩ := List.nodup_append.mp hn
+    cases hc : c.idEq e with
+    | true =>
+      have hfc : find e c = some c := find_self_of_idEq hc
+      have hsub : c = sub := by simpa [findL, hfc] using hf
+      have hmem : e ∈ ids c := find_some_mem hfc
+      have hnot : e ∉ idsL rest := fun hm => hdis e hmem e hm rfl
+      subst hsub
+      simp only [List.filter_cons, hc, Bool.not_true, Bool.false_eq_true, if_false,
+        filter_idEq_of_not_mem hnot, measL]
+      perm_count
+    | false =>
+      have ha' : anyIdEq e rest = true := by simpa [anyIdEq, hc] using ha
+      have hmem := anyIdEq_mem_idsL ha'
+      have hnot : e ∉ ids c := fun hm => hdis e hm e hmem rfl
+      have hf' : findL e rest = some sub := by simpa [findL, find_none_of_not_mem hnot] using hf
+      have ih := measL_filter_extract e sub rest hn2 ha' hf'
+      simp only [List.filter_cons, hc, Bool.not_false, if_true, measL]
+      perm_count ih
+
+mutual
+theorem meas_extractRec (e p : Nat) (k : String) (pt sub : Tree) : (t : Tree) → (ids t).Nodup →
+    find p t = some pt → findL e pt.children = some sub → anyIdEq e pt.children = true →
+    (meas f (extractRec e p k t) ++ meas f sub).Perm
+      (f none (.ref k (nodePlainText sub.node) .regular) ++ meas f t)
+  | .mk id n cs, hn, hp, hs, ha => by
+    simp only [ids] at hn
+    obtain ⟨_, hn2, _⟩ := List.nodup_append.mp hn
+    by_cases hid : id = some p
+    · have hpt : Tree.mk id n cs = pt := by simpa [find, hid] using hp
+      subst hpt
+      simp only [children_mk] at hs ha
+      have hB := measL_insertAt f (cs.filter fun c => !c.idEq e) (preSubHeaderPosition cs)
+        (.mk none (.ref k (nodePlainText sub.node) .regular) [])
+      have hC := measL_filter_extract f e sub cs hn2 ha hs
+      simp only [extractRec, hid, beq_self_eq_true, if_true, hs]
+      perm_count hB hC
+    · have hp' : findL p cs = some pt := by simpa [find, hid] using hp
+      have ih := measL_extractRecL e p k pt sub cs hn2 hp' hs ha
+      simp only [extractRec, beq_iff_eq, hid, if_false]
+      perm_count ih
+theorem measL_extractRecL (e p : Nat) (k : String) (pt sub : Tree) : (cs : List Tree) → (idsL cs).Nodup →
+    findL p cs = some pt → findL e pt.children = some sub → anyIdEq e pt.children = true →
+    (measL f (extractRecL e p k cs) ++ meas f sub).Perm
+      (f none (.ref k (nodePlainText sub.node) .regular) ++ measL f cs)
+  | [], _, hp, _, _ => by simp [findL] at hp
+  | c :: rest, hn, hp, hs, ha => by
+    simp only [idsL] at hn
+    obtain ⟨hn1, hn2, hdis⟩ := List.nodup_append.mp hn
+    simp only [extractRecL]
+    cases hfc : find p c with
+    | some r =>
+      have hr : r = pt := by simpa [findL, hfc] using hp
+      subst hr
+      have hmem : p ∈ ids c := find_some_mem hfc
+      have hnot : containsL p rest = false := by
+        rw [containsL_false_iff]; exact fun hm => hdis p hmem p hm rfl
+      have ih := meas_extractRec e p k r sub c hn1 hfc hs ha
+      rw [extractRecL_frame e p k rest hnot]
+      perm_count ih
+    | none =>
+      have hp' : findL p rest = some pt := by simpa [findL, hfc] using hp
+      have hc : contains p c = false := (find_eq_none_iff p c).mp hfc
+      have ih := measL_extractRecL e p k pt sub rest hn2 hp' hs ha
+      rw [extractRec_frame e p k c hc]
+      perm_count ih
+end
+
+end
+
+/-! ### `removeNode` -/
+
+mutual
+theorem removeNode_frame (i : Nat) : (t : Tree) → containsL i t.children = false → removeNode i t = t
+  | .mk id n cs, h => by
+    simp only [children_mk] at h
+    simp [removeNode, removeNodeL_frame i cs h]
+theorem removeNodeL_frame (i : Nat) : (cs : List Tree) → containsL i cs = false → removeNodeL i cs = cs
+  | [], _ => by simp [removeNodeL]
+  | .mk id n cs :: ts, h => by
+    simp only [containsL, contains, Bool.or_eq_false_iff] at h
+    have := removeNode_frame i (.mk id n cs) h.1.2
+    simp [removeNodeL, h.1.1, this, removeNodeL_frame i ts h.2]
+end
+
+section
+variable {α : Type} (f : Option Nat → Node → List α)
+
+mutual
+theorem meas_removeNode (i : Nat) (rt : Tree) : (t : Tree) → (ids t).Nodup → t.id ≠ some i →
+    find i t = some rt → rt.children = [] →
+    (f rt.id rt.node ++ meas f (removeNode i t)).Perm (meas f t)
+  | .mk id n cs, hn, hid, hf, hch => by
+    simp only [ids] at hn
+    obtain ⟨_, hn2, _⟩ := List.nodup_append.mp hn
+    have hid' : id ≠ some i := hid
+    have hf' : findL i cs = some rt := by simpa [find, hid'] using hf
+    have ih := measL_removeNodeL i rt cs hn2 hf' hch
+    simp only [removeNode]
+    perm_count ih
+theorem measL_removeNodeL (i : Nat) (rt : Tree) : (cs : List Tree) → (idsL cs).Nodup →
+    findL i cs = some rt → rt.children = [] →
+    (f rt.id rt.node ++ measL f (removeNodeL i cs)).Perm (measL f cs)
+  | [], _, hf, _ => by simp [findL] at hf
+  | c :: rest, hn, hf, hch => by
+    simp only [idsL] at hn
+    obtain ⟨hn1, hn2, hdis⟩ := List.nodup_append.mp hn
+    cases hc : c.idEq i with
+    | true =>
+      have hfc : find i c = some c := find_self_of_idEq hc
+      have hrt : c = rt := by simpa [findL, hfc] using hf
+      subst hrt
+      have hmem : i ∈ ids c := find_some_mem hfc
+      have hnot : containsL i rest = false := by
+        rw [containsL_false_iff]; exact fun hm => hdis i hmem i hm rfl
+      simp only [removeNodeL, hc, if_true, removeNodeL_frame i rest hnot, measL, meas_leaf f c hch]
+      perm_count
+    | false =>
+      have hcid : c.id ≠ some i := by
+        intro he; rw [(idEq_iff c i).mpr he] at hc; cases hc
+      simp only [removeNodeL, hc, Bool.false_eq_true, if_false]
+      cases hfc : find i c with
+      | some r =>
+        have hr : r = rt := by simpa [findL, hfc] using hf
+        subst hr
+        have hmem : i ∈ ids c := find_some_mem hfc
+        have hnot : containsL i rest = false := by
+          rw [containsL_false_iff]; exact fun hm => hdis i hmem i hm rfl
+        have ih := meas_removeNode i r c hn1 hcid hfc hch
+        rw [removeNodeL_frame i rest hnot]
+        perm_count ih
+      | none =>
+        have hf' : findL i rest = some rt := by simpa [findL, hfc] using hf
+        have hcc : contains i c = false := (find_eq_none_iff i c).mp hfc
+        have hccL : containsL i c.children = false := by
+          obtain ⟨id, n, cs⟩ := c
+          simp only [contains, Bool.or_eq_false_iff] at hcc
+          exact hcc.2
+        have ih := measL_removeNodeL i rt rest hn2 hf' hch
+        rw [removeNode_frame i c hccL]
+        perm_count ih
+end
+
+end
+
+/-! ### `appendPreHeader` -/
+
+mutual
+theorem appendPreHeader_frame (i : Nat) (new : Tree) : (t : Tree) → contains i t = false →
+    appendPreHeader i new t = t
+  | .mk id n cs, h => by
+    simp only [contains, Bool.or_eq_false_iff] at h
+    simp [appendPreHeader, h.1, appendPreHeaderL_frame i new cs h.2]
+theorem appendPreHeaderL_frame (i : Nat) (new : Tree) : (cs : List Tree) → containsL i cs = false →
+    appendPreHeaderL i new cs = cs
+  | [], _ => by simp [appendPreHeaderL]
+  | t :: ts, h => by
+    simp only [containsL, Bool.or_eq_false_iff] at h
+    simp [appendPreHeaderL, appendPreHeader_frame i new t h.1, appendPreHeaderL_frame i new ts h.2]
+end
+
+section
+variable {α : Type} (f : Option Nat → Node → List α)
+
+mutual
+theorem meas_appendPreHeader (i : Nat) (new : Tree) : (t : Tree) → (ids t).Nodup → contains i t = true →
+    (meas f (appendPreHeader i new t)).Perm (meas f t ++ meas f new)
+  | .mk id n cs, hn, hc => by
+    simp only [ids] at hn
+    obtain ⟨_, hn2, hdis⟩ := List.nodup_append.mp hn
+    by_cases hid : id = some i
+    · have hnot : containsL i cs = false := by
+        rw [containsL_false_iff]; exact fun hm => hdis i (by simp [hid]) i hm rfl
+      have hB := measL_insertAt f cs (preSubHeaderPosition cs) new
+      simp only [appendPreHeader, hid, beq_self_eq_true, if_true, insertAtMapped,
+        appendPreHeaderL_frame i new cs hnot]
+      perm_count hB
+    · have hc' : containsL i cs = true := by simpa [contains, hid] using hc
+      have ih := measL_appendPreHeaderL i new cs hn2 hc'
+      simp only [appendPreHeader, beq_iff_eq, hid, if_false]
+      perm_count ih
+theorem measL_appendPreHeaderL (i : Nat) (new : Tree) : (cs : List Tree) → (idsL cs).Nodup →
+    containsL i cs = true → (measL f (appendPreHeaderL i new cs)).Perm (measL f cs ++ meas f new)
+  | [], _, hc => by simp [containsL] at hc
+  | c :: rest, hn, hc => by
+    simp only [idsL] at hn
+    obtain ⟨hn1, hn2, hdis⟩ := List.nodup_append.mp hn
+    simp only [appendPreHeaderL]
+    cases hcc : contains i c with
+    | true =>
+      have hmem : i ∈ ids c := (contains_iff i c).mp hcc
+      have hnot : containsL i rest = false := by
+        rw [containsL_false_iff]; exact fun hm => hdis i hmem i hm rfl
+      have ih := meas_appendPreHeader i new c hn1 hcc
+      rw [appendPreHeaderL_frame i new rest hnot]
+      perm_count ih
+    | false =>
+      have hc' : containsL i rest = true := by simpa [containsL, hcc] using hc
+      have ih := measL_appendPreHeaderL i new rest hn2 hc'
+      rw [appendPreHeader_frame i new c hcc]
+      perm_count ih
+end
+
+end
+
+/-! ### `replace` -/
+
+mutual
+theorem replace_frame (i : Nat) (r : Tree) : (t : Tree) → contains i t = false → replace i r t = t
+  | .mk id n cs, h => by
+    simp only [contains, Bool.or_eq_false_iff] at h
+    simp [replace, h.1, replaceL_frame i r cs h.2]
+theorem replaceL_frame (i : Nat) (r : Tree) : (cs : List Tree) → containsL i cs = false → replaceL i r cs = cs
+  | [], _ => by simp [replaceL]
+  | t :: ts, h => by
+    simp only [containsL, Bool.or_eq_false_iff] at h
+    simp [replaceL, replace_frame i r t h.1, replaceL_frame i r ts h.2]
+end
+
+section
+variable {α : Type} (f : Option Nat → Node → List α)
+
+mutual
+theorem meas_replace (i : Nat) (r rt : Tree) : (t : Tree) → (ids t).Nodup → find i t = some rt →
+    rt.children = [] → (f rt.id rt.node ++ meas f (replace i r t)).Perm (meas f r ++ meas f t)
+  | .mk id n cs, hn, hf, hch => by
+    simp only [ids] at hn
+    obtain ⟨_, hn2, _⟩ := List.nodup_append.mp hn
+    by_cases hid : id = some i
+    · have hrt : Tree.mk id n cs = rt := by simpa [find, hid] using hf
+      subst hrt
+      simp only [children_mk] at hch
+      subst hch
+      simp only [replace, hid, beq_self_eq_true, if_true, id_mk, node_mk]
+      perm_count
+    · have hf' : findL i cs = some rt := by simpa [find, hid] using hf
+      have ih := measL_replaceL i r rt cs hn2 hf' hch
+      simp only [replace, beq_iff_eq, hid, if_false]
+      perm_count ih
+theorem measL_replaceL (i : Nat) (r rt : Tree) : (cs : List Tree) → (idsL cs).Nodup → findL i cs = some rt →
+    rt.children = [] → (f rt.id rt.node ++ measL f (replaceL i r cs)).Perm (meas f r ++ measL f cs)
+  | [], _, hf, _ => by simp [findL] at hf
+  | c :: rest, hn, hf, hch => by
+    simp only [idsL] at hn
+    obtain ⟨hn1, hn2, hdis⟩ := List.nodup_append.mp hn
+    simp only [replaceL]
+    cases hfc : find i c with
+    | some r' =>
+      have hr : r' = rt := by simpa [findL, hfc] using hf
+      subst hr
+      have hmem : i ∈ ids c := find_some_mem hfc
+      have hnot : containsL i rest = false := by
+        rw [containsL_false_iff]; exact fun hm => hdis i hmem i hm rfl
+      have ih := meas_replace i r r' c hn1 hfc hch
+      rw [replaceL_frame i r rest hnot]
+      perm_count ih
+    | none =>
+      have hf' : findL i rest = some rt := by simpa [findL, hfc] using hf
+      have hcc : contains i c = false := (find_eq_none_iff i c).mp hfc
+      have ih := measL_replaceL i r rt rest hn2 hf' hch
+      rw [replace_frame i r c hcc]
+      perm_count ih
+end
+
+end
+
+end Tree
+end Iwe
